@@ -22,14 +22,17 @@ mqtt-out, run layer (`scan`: which calls a run makes; every variant, configurati
                             starts polling only while the gauge is down; evaluated by the driver on every run)
 * `mqtt_inflight_is_sample`, `mqtt_inflight_only_at_polls`, `mqtt_inflight_bounded`, `mqtt_inflight_returns_to_zero`,
   `mqtt_inflight_zero_after_error`, `mqtt_inflight_lags_counterexample`   the in-flight gauge
+* `mqtt_lost_full` / `mqtt_lost_counterexample` / `mqtt_lost_partial` / `mqtt_lost_repaired`   the lost-connection counter
+                            counts failed re-connects as written (listed finding), never undercounts, exact when repaired
 exposition of a source (C15 "the text parses", C19 label values)
-* `mqtt_calls_wf`, `mqtt_text_roundtrip`, `mqtt_text_values`, `mqtt_text_unique_iff`
-* `filter_calls_wf`, `filter_text_roundtrip`, `filter_text_unique_iff`
+* `text_roundtrip_live`, `mqtt_calls_wf`, `mqtt_text_roundtrip`, `mqtt_text_values`, `mqtt_text_unique_iff`
+* `filter_calls_wf`, `filter_text_roundtrip`, `filter_text_not_unique`
 filter unit
 * `filter_exact`, `filter_total_is_sum`, `filter_monotone`
 whole process
-* `assemble_is_concatenation`, `assemble_parses`, `assemble_unique_iff`, `assemble_same_type_twice`,
-  `register_sorted`, `register_perm`, `assemble_consistent_meta`
+* `assemble_is_concatenation`, `assemble_parses`, `sources_wf`, `assemble_unique_iff`, `assemble_same_type_twice`,
+  `registerAll_sorted_perm`; in `Props/UnitMetricsTable.lean` (extracted table): `table_consistent`,
+  `assemble_consistent_meta`, `model_constants_in_table`, `model_shapes_in_source`, `tokio_fields`, `tokio_calls_wf`
 -/
 namespace Rotonda.UnitMetrics
 
